@@ -649,3 +649,21 @@ package dawn
 //@   loop over info.Dependencies: step dependency-keys-are-labels: when true ensures parses(k)
 //@   loop over index.Targets: step unreadable-record-is-an-error: when true ensures err == nil
 //@   loop over index.Targets: step every-indexed-target-is-registered: when true ensures has(proj.targets, lstr4(l.Kind, l.Project, l.Package, l.Name))
+
+// ---------------------------------------------------------------- C17: the ignore set is this configuration's
+// The set of ignored paths is compiled from the ignore list of the configuration file being loaded; a
+// file without an ignore list clears it (a set left over from a configuration that was rejected
+// later must not survive the fallback to the next file).
+//@ func (*dawn.Project).loadConfigFile
+//@   requires proj != nil
+//@   callsite BuildList: assert no-ignore-list-clears-the-set: len(c.Ignore) == 0 ==> proj.ignore == nil
+//@   callsite CompileGlobs: assert compiles-this-list: arr($0) == arr(c.Ignore) && len($0) == len(c.Ignore)
+//@   modifies heap, smap
+//@   loop over c.Requirements: invariant cleared-stays-cleared: c != nil && proj != nil && (len(c.Ignore) == 0 ==> proj.ignore == nil)
+
+// glob() compiles exactly the two pattern lists it was given, each time it is called (there is no
+// shared table of compiled lists that a different list could be mistaken for).
+//@ func (*dawn.Project).builtin_glob
+//@   requires proj != nil && thread != nil
+//@   callsite CompileGlobs: assert compiles-its-own-lists: (arr($0) == arr(include) && len($0) == len(include)) || (arr($0) == arr(exclude) && len($0) == len(exclude))
+//@   modifies heap, sb, lx, n_compile, last_compiled, last_compiled_src
